@@ -66,6 +66,9 @@ structure G where
   live       : List Nat      -- steps that have a live scheduler job: submitted OK, not yet answered terminal
   peak       : Nat           -- the largest number of simultaneously live jobs so far
   depsOk     : Bool          -- every launch so far happened with all parents complete
+  freshOk    : Bool          -- no launch so far concerned a step that was already resolved
+  cancelOk   : Bool          -- no launch so far happened after a cancel request
+  restartOk  : Bool          -- the restart script was only ever used for steps that have one
   oneJob     : Bool          -- no step ever got a job while it still had a live one
 
 def upd {α} (f : Nat → α) (i : Nat) (v : α) : Nat → α := fun x => if x = i then v else f x
@@ -83,7 +86,8 @@ def init (cfg : Cfg) : G :=
   { status := fun _ => .INITIALIZED, jobs := fun _ => [], restarts := fun _ => 0,
     deps := cfg.parents, completed := [0], inProgress := [], failed := [], cancelled := [],
     ready := [], isCanceled := false, subCount := 0, cleanup := [], cancelQ := [], log := [],
-    live := [], peak := 0, depsOk := true, oneJob := true }
+    live := [], peak := 0, depsOk := true, freshOk := true, cancelOk := true, restartOk := true,
+    oneJob := true }
 
 def emit (g : G) (e : Ev) : G := { g with log := g.log ++ [e] }
 
@@ -123,10 +127,17 @@ def submitLoop (cfg : Cfg) (i : Nat) (restart : Bool) : Nat → G → G × Bool
 def failSubtree (cfg : Cfg) (g : G) (i : Nat) : G :=
   (subtree cfg i).foldl (fun g x => setStatus { g with failed := ins x g.failed } x .FAILED) g
 
-/-- start of `_execute_record`: (ghost) were all parents complete when this
-launch was decided?; the script is generated unless this is a restart -/
+/-- start of `_execute_record`: the ghost flags record whether, at the moment this
+launch was decided, all parents were complete, the step was unresolved, no cancel
+had been requested and a restart concerns a step with a restart command; the
+script is generated unless this is a restart -/
 def execPrep (cfg : Cfg) (g : G) (i : Nat) (restart : Bool) : G :=
-  let g := { g with depsOk := g.depsOk && (cfg.parents i).all (fun p => g.completed.contains p) }
+  let g := { g with
+    depsOk := g.depsOk && (cfg.parents i).all (fun p => g.completed.contains p),
+    freshOk := g.freshOk &&
+      !(g.completed.contains i || g.failed.contains i || g.cancelled.contains i),
+    cancelOk := g.cancelOk && !g.isCanceled,
+    restartOk := g.restartOk && (!restart || cfg.hasRestart i) }
   if restart then g else emit g (.gen i)
 
 /-- `if self.dry_run: record.mark_end(State.DRYRUN); self.completed_steps.add(..); return` -/
